@@ -21,7 +21,12 @@ import gen  # noqa: E402
 import lib  # noqa: E402
 
 DEBUG_ROWS = []
+HOMOG = []
 K_TOL = 60.0   # "fixed modest multiple" of atol + rtol*|u| (worst ratio observed on the unchanged tree is recorded in the evidence)
+# Error-per-step control: the global error of an order-q method controlled by LOCAL errors behaves like C |u| (tol/|u|)^(q/(q+1)),
+# so error/tol grows like tol^(-1/(q+1)) as the tolerance shrinks (measured on the unchanged tree: q=2, tol 1e-8: 100..1300 x tol).
+# A tolerance miss is reported only when the error ALSO exceeds K_EPS x that law (worst measured constant: 45, u' = t u on [0,3]).
+K_EPS = 150.0
 
 
 # ------------------------------------------------------------------ problem family with closed-form solutions
@@ -205,6 +210,35 @@ def main():
         runs.append(gen.floatable(c))
         meta.append(("tol", c, {"name": name, "tol": rtol if small else atol, "scale": float(scale)}))
 
+    # (3c) homogeneity of the tolerance test atol + rtol|u| (metamorphic, no constant involved): for a LINEAR problem, scaling the
+    #      initial value, the prior's base scale and atol by s = 2^k (exact in binary floating point) and keeping rtol scales every
+    #      quantity of the run by s: the accepted step sequence is identical and the means scale by s.
+    for _ in range(5 if quick else 40):
+        name = rng.choice(["linear(-1)", "linear(1/2)", "rotation", "oscillator2", "damped2"])
+        p0 = P[name]
+        k2 = rng.choice([-13, -10, -7, 6, 9, 12])
+        sc = Fr(2) ** k2
+        q = rng.randint(max(2, p0["ord"]), 4)
+        kind = rng.choice(kinds)
+        strat, calib, linz = rng.choice(["filter", "fixedpoint"]), rng.choice(["none", "mle", "dyn"]), rng.choice(["ts0", "ts1"])
+        atol = 10.0 ** -rng.randint(4, 8)
+        rtol = 10.0 ** -rng.randint(3, 6)
+        t1 = Fr(rng.choice([1, 2]), 1)
+        mid = t1 * Fr(rng.randint(1, 31), 32)
+        clip, control = rng.random() < 0.5, rng.choice([None, "pi"])
+        pair = []
+        for fac in (Fr(1), sc):
+            p = dict(p0)
+            p["u0"] = [[x * fac for x in row] for row in p0["u0"]]
+            c = base_case(p, q, kind, strat, calib, linz, Fr(0))
+            c["base"] = fac if kind == "iso" else [fac] * p["d"]
+            c["routine"] = "adaptive"
+            c["adaptive"] = {"mode": "save_at", "save_at": [Fr(0), mid, t1], "atol": atol * float(fac), "rtol": rtol, "dt0": 0.1, "clip": clip, "control": control}
+            runs.append(gen.floatable(c))
+            pair.append(c)
+            meta.append(("homog", c, {"name": name, "scale": float(fac), "pair_id": len(HOMOG)}))
+        HOMOG.append(pair)
+
     # (4) tiny remainder after the last natural step (clip_dt): first find the natural step ends
     pre, premeta = [], []
     for _ in range(3 if quick else 20):
@@ -230,6 +264,8 @@ def main():
 
     ires = lib.run_impl("solve_impl.py", {"cases": runs}, timeout=3000)["results"]
     worst_ratio, order_seen = 0.0, []
+    worst_norm = 0.0
+    homog_res = {}
     pend_order = {}
     for (what, c, info), r in zip(meta, ires):
         jc = gen.jsonable(c)
@@ -254,6 +290,8 @@ def main():
             err = max(abs(g - w) for g, w in zip(u_of(r, c, len(r["t"]) - 1), p["sol"](r["t"][-1], r["t"][0])))
             k2 = (info["name"], c["kind"], c["q"], c["strat"], c["calib"], c["lin"], info["n"] // info["pair"])
             pend_order.setdefault(k2, {})[info["pair"]] = (err, jc)
+        elif what == "homog":
+            homog_res.setdefault(info["pair_id"], []).append((c, info, r, jc))
         elif what in ("tol", "tiny"):
             p = P[info["name"]]
             tol = info["tol"]
@@ -275,16 +313,53 @@ def main():
             DEBUG_ROWS.append({"what": what, "name": info["name"], "q": qq, "atol": a["atol"], "rtol": a["rtol"], "scale": info.get("scale", 1.0),
                                "ratio": ratio_here, "norm": norm_here, "nonfinite": nonfinite, "kind": c["kind"], "calib": c["calib"],
                                "strat": c["strat"], "lin": c["lin"], "out_scale": r.get("output_scale")})
+            if nonfinite:
+                osc = [x for row in (r.get("output_scale") or []) for x in row]
+                if c["calib"].startswith("dyn") and any((x == 0.0) or (x != x) for x in osc):
+                    ck.report("C01.dynamic-calibration.zero-residual.non-finite",
+                              f"{c['kind']}/{c['strat']}/{c['calib']}/{c['lin']} q={c['q']} {info['name']}: the adaptive solve returns NaN means; the local "
+                              f"(dynamic) output scale is exactly zero at some step (reported scales {osc[:6]})", {"case": jc, "output_scale": osc})
+                else:
+                    ck.report(f"C01.{c['kind']}.non-finite-output", f"{c['kind']}/{c['strat']}/{c['calib']}/{c['lin']} q={c['q']} {info['name']}: "
+                              "the adaptive solve returns non-finite means", {"case": jc})
+                continue
             if what == "tol":
                 worst_ratio = max(worst_ratio, ratio_here)
-            if not ratio_here <= K_TOL:
+                worst_norm = max(worst_norm, norm_here)
+            if not (ratio_here <= K_TOL or (what == "tol" and norm_here <= K_EPS)):
                 if what == "tiny":
                     ck.report("C01.clip-dt.tiny-last-step", f"{c['kind']}/{c['calib']} q={c['q']} {info['name']}: final time leaves a remainder of 3e-8 after a natural step "
                               f"(clip_dt=True): error is {ratio_here:.3g} x (atol + rtol|u|) at tol {tol:g}", {"case": jc, "ratio": ratio_here})
                 else:
                     ck.report(f"C01.tolerance.{c['kind']}.{c['strat']}.{c['calib']}.{c['lin']}",
                               f"{c['kind']}/{c['strat']}/{c['calib']}/{c['lin']} q={c['q']} {info['name']} atol={a['atol']:g} rtol={a['rtol']:g} |u|~{info.get('scale', 1.0):g}: error is {ratio_here:.3g} x (atol + rtol|u|) "
-                              f"(> {K_TOL})", {"case": jc, "ratio": ratio_here})
+                              f"(> {K_TOL}) and {norm_here:.3g} x |u| (tol/|u|)^(q/(q+1)) (> {K_EPS})", {"case": jc, "ratio": ratio_here, "eps_law_constant": norm_here})
+    # (3c) homogeneity pairs
+    n_h = 0
+    for pid_, lst in homog_res.items():
+        if len(lst) != 2:
+            continue
+        (c1, i1, r1, j1), (c2, i2, r2, j2) = lst
+        if "error" in r1 or "error" in r2:
+            continue
+        sc = i2["scale"] / i1["scale"]
+        n_h += 1
+        cfg = f"{c1['kind']}/{c1['strat']}/{c1['calib']}/{c1['lin']} q={c1['q']} {i1['name']}"
+        if r1["num_steps"] != r2["num_steps"]:
+            ck.report("C01.tolerance-homogeneity.steps", f"{cfg}: scaling the initial value, the base scale and atol by {sc:g} (rtol kept) changes the accepted "
+                      f"step counts {r1['num_steps']} -> {r2['num_steps']}: atol and rtol do not enter as atol + rtol|u|", {"case": j1, "scaled_case": j2})
+            continue
+        bad = None
+        for ti in range(len(r1["t"])):
+            for g1, g2 in zip(u_of(r1, c1, ti), u_of(r2, c2, ti)):
+                if not (math.isfinite(g1) and math.isfinite(g2)):
+                    continue
+                if abs(g2 / sc - g1) > 1e-9 * max(abs(g1), 1e-300) + 1e-300:
+                    bad = (ti, g1, g2 / sc)
+        if bad:
+            ck.report("C01.tolerance-homogeneity.values", f"{cfg}: scaled run / {sc:g} differs from the unscaled run at output {bad[0]}: {bad[2]!r} vs {bad[1]!r}",
+                      {"case": j1, "scaled_case": j2})
+    ck.hist["homogeneity_pairs_compared"] = {"n": n_h}
     for k2, d in pend_order.items():
         if 1 in d and 2 in d:
             e1, e2 = d[1][0], d[2][0]
@@ -299,6 +374,7 @@ def main():
         with open(os.environ["C01_DEBUG"], "w") as f_:
             json.dump(DEBUG_ROWS, f_, default=str)
     ck.hist["worst_error_over_tolerance"] = {"value": worst_ratio}
+    ck.hist["worst_eps_law_constant"] = {"value": worst_norm, "K_EPS": K_EPS, "K_TOL": K_TOL}
     ck.hist["observed_order_minus_(q+1)"] = {"values": order_seen}
     if not pr["ok"] and not ck.violations:
         ck.report("C01.proof", f"proof obligations no longer check: {pr['errors']}",
@@ -306,7 +382,8 @@ def main():
     ck.finish(rule="(1) polynomial solutions of degree <= q on random fixed grids: exact to 1e-9; (2) grid halving on closed-form IVPs: observed order >= q; "
               f"(3) adaptive solves on a closed-form family (linear, rotation, logistic, u'=tu, two second-order oscillators), tol 1e-2..1e-9, random checkpoints, "
               f"dt0, clip on/off, I/PI control, 3 factorisations x none/MLE/dynamic x filter/fixed-point x TS0/TS1, q<=6: error <= {K_TOL} (atol+rtol|u|), "
-              "incl. linear problems scaled to |u| ~ 1e-3..1e4 with atol != rtol by 5-7 orders (each tolerance must play its own role); "
+               f"or, for tight tolerances at low order, <= {K_EPS} |u| (tol/|u|)^(q/(q+1)) (the error-per-step law); incl. linear problems scaled to |u| ~ 1e-3..1e4 with "
+              "atol != rtol; (3c) homogeneity: linear problem, initial value / base scale / atol x 2^k, rtol kept => identical accepted steps, means x 2^k; "
               "(4) final time leaving a 3e-8 remainder after a natural step with clip_dt; non-trivial: all; distinct by full input")
 
 
